@@ -21,7 +21,13 @@ func init() {
 				return &bstSys{name: "BsTree", t: bstree.New[int, string](less), less: less, model: map[int]string{}, keys: keys}
 			}}
 		}
+		lt, gt := func(a, b int) bool { return a < b }, func(a, b int) bool { return a > b }
 		return []*seqmc.Spec{
+			// two trees side by side, opposite comparators (whatever is kept at package level)
+			{Property: "C04", Component: "BsTree(<) x BsTree(>)", KeyName: "BsTree", Inits: []string{"empty"}, New: func(string) seqmc.Sys {
+				return seqmc.Pair(&bstSys{name: "BsTree", t: bstree.New[int, string](lt), less: lt, model: map[int]string{}, keys: 2},
+					&bstSys{name: "BsTree", t: bstree.New[int, string](gt), less: gt, model: map[int]string{}, keys: 2})
+			}},
 			mk("BsTree(<)", func(a, b int) bool { return a < b }),
 			mk("BsTree(>)", func(a, b int) bool { return a > b }),
 			// a strict order that is neither ascending nor descending in the natural order of the keys:
